@@ -5,6 +5,8 @@
 package storage
 
 import (
+	"time"
+
 	"github.com/jamf/regatta/storage/logreader"
 	"github.com/lni/dragonboat/v4/raftio"
 	"go.uber.org/zap"
@@ -14,12 +16,35 @@ import (
 // replica nodeID, through the engine's event listener and dispatcher to the given log cache and
 // returns once it has been handled. Verification hook, compiled only with the verif build tag.
 func VerifDeliverLogCompacted(cache *logreader.ShardCache, nodeID uint64, info raftio.EntryInfo) {
+	VerifDeliverLogCompactedAfter(cache, nodeID, info, 0)
+}
+
+// VerifDeliverLogCompactedAfter is VerifDeliverLogCompacted in a burst: dragonboat reports `before`
+// other system events first (LogDB compactions of the same shard, which the dispatcher ignores)
+// while the dispatcher is still busy, so the engine's one-slot event channel is full when the
+// LogCompacted event is published; then the dispatcher runs until everything published is handled.
+func VerifDeliverLogCompactedAfter(cache *logreader.ShardCache, nodeID uint64, info raftio.EntryInfo, before int) {
 	e := &events{
 		eventsCh: make(chan any, 1),
 		stopc:    make(chan struct{}),
 		engine:   &Engine{cfg: Config{NodeID: nodeID}, log: zap.NewNop().Sugar(), LogCache: cache},
 	}
-	e.LogCompacted(info)
-	close(e.eventsCh)
+	published := make(chan struct{})
+	go func() {
+		for i := 0; i < before; i++ {
+			e.LogDBCompacted(info)
+		}
+		e.LogCompacted(info)
+		close(e.eventsCh)
+		close(published)
+	}()
+	if before > 0 {
+		// let the publisher run into the full channel before the dispatcher starts
+		for i := 0; i < 50 && len(e.eventsCh) == 0; i++ {
+			time.Sleep(100 * time.Microsecond)
+		}
+		time.Sleep(200 * time.Microsecond)
+	}
 	e.dispatchEvents()
+	<-published
 }
